@@ -311,7 +311,14 @@ def d2_order(ctx):
               "ns truncates the float product: an integral frame count just below an integer loses a frame", key="ns-round")
 
 
+def dS_shared(ctx):
+    from sa.common import rule_no_shared_mutation
+    rule_no_shared_mutation(ctx, "DS", ["spikeglx.Reader.open", "spikeglx.Reader.__init__", "spikeglx.Reader.ns", "spikeglx.Reader.shape"],
+                            "the sample count / duration a reader reports depends on what another reader of the same file did")
+
+
 def run(ctx):
+    ctx.run(dS_shared)
     ctx.run(d1_floor)
     ctx.run(d2_order)
     from rules import C02
